@@ -310,3 +310,133 @@ Definition nop_spec (acts : nat -> hact) (fuel : nat) (ops : list mux_op) (k : n
   | Some (OpServe i t) =>
       exists tr, e = NvServe tr /\ nspec acts (fun j => regs_on j (firstn k ops)) fuel 0 i t tr
   end.
+
+(* ====================================================================================
+   Additions (round 8): handlers that REGISTER while being served.  Nothing above was changed.
+   servemux.go:47-54: [for _, h := range m.handlers] evaluates the slice once, when the loop
+   starts; servemux.go:34-45 appends to m.handlers.  So a handler registered (on the same
+   ServeMux) while a Serve is running is NOT invoked by that Serve — not even if its filter
+   matches the message being served — but it is registered from then on: every Serve that STARTS
+   later sees it, including a nested Serve made later inside the same outer call.
+   The code of a handler is now a list of steps (Handle on some instance / Serve on some instance),
+   run in order when the handler is given its trigger topic and the nesting depth is below the bound.
+   A dispatch therefore returns the new state as well.
+   Trace items: an invocation (depth, handler) or the outcome of a Handle made by a handler.
+   ==================================================================================== *)
+
+Inductive hstep :=
+| HsHandle (j : nat) (f : str) (h : nat)      (* muxes[j].Handle(f, handler h) *)
+| HsServe (j : nat) (t : str).                (* muxes[j].Serve(&Message{Topic: t}) *)
+
+Definition hprog := option (str * list hstep).  (* trigger topic, steps *)
+
+Inductive titem :=
+| TInv (d : nat) (h : nat)                    (* handler h entered at nesting depth d *)
+| TReg (d : nat) (accepted : bool).           (* a handler running at depth d called Handle: err == nil *)
+
+Fixpoint run_steps (call : muxes -> nat -> str -> list titem * muxes) (d : nat)
+                   (steps : list hstep) (st : muxes) : list titem * muxes :=
+  match steps with
+  | [] => ([], st)
+  | HsHandle j f h :: r =>
+      let '(tr, st') := run_steps call d r (muxes_upd st j (mux_handle (st j) (f, h))) in
+      (TReg d (is_some (new_topic_filter f)) :: tr, st')
+  | HsServe j t :: r =>
+      let '(tr1, st1) := call st j t in
+      let '(tr2, st2) := run_steps call d r st1 in
+      (tr1 ++ tr2, st2)
+  end.
+
+(* the loop of Serve over the handlers selected when it started *)
+Fixpoint run_handlers (act : nat -> muxes -> list titem * muxes) (d : nat)
+                      (hs : list nat) (st : muxes) : list titem * muxes :=
+  match hs with
+  | [] => ([], st)
+  | h :: r =>
+      let '(tr1, st1) := act h st in
+      let '(tr2, st2) := run_handlers act d r st1 in
+      (TInv d h :: tr1 ++ tr2, st2)
+  end.
+
+Fixpoint rserve (progs : nat -> hprog) (fuel : nat) (st : muxes) (d i : nat) (t : str)
+  {struct fuel} : list titem * muxes :=
+  run_handlers
+    (fun h st' =>
+       match fuel with
+       | O => ([], st')
+       | S fuel' =>
+           match progs h with
+           | Some (trig, steps) =>
+               if str_eqb trig t
+               then run_steps (fun st'' j t' => rserve progs fuel' st'' (S d) j t') d steps st'
+               else ([], st')
+           | None => ([], st')
+           end
+       end)
+    d
+    (mux_serve (st i) t)          (* the snapshot: [range m.handlers] *)
+    st.
+
+Inductive rmux_ev :=
+| RvHandle (accepted : bool)
+| RvServe (trace : list titem)
+| RvStuck.                        (* observation only: the call did not return (watchdog) *)
+
+Fixpoint rmuxes_run (progs : nat -> hprog) (fuel : nat) (st : muxes) (ops : list mux_op) : list rmux_ev :=
+  match ops with
+  | [] => []
+  | OpHandle i f h :: r =>
+      RvHandle (is_some (new_topic_filter f))
+      :: rmuxes_run progs fuel (muxes_upd st i (mux_handle (st i) (f, h))) r
+  | OpServe i t :: r =>
+      let '(tr, st') := rserve progs fuel st 0 i t in
+      RvServe tr :: rmuxes_run progs fuel st' r
+  end.
+
+(* ---------- spec, written over registration lists (raw filter strings, valid or not) ----------
+   R j = everything registered on instance j so far, in order.  [radd R j r R'] : R' is R with r
+   appended on j.  rspec fuel R d i t tr R' : a Serve of t on i at depth d, started when the
+   registrations are R, produces tr and leaves R'.  The handlers are selected ONCE, from R. *)
+Definition radd (R : nat -> list (str * nat)) (j : nat) (r : str * nat) (R' : nat -> list (str * nat)) : Prop :=
+  forall k, R' k = if Nat.eqb k j then R k ++ [r] else R k.
+
+Inductive rspec (progs : nat -> hprog) :
+  nat -> (nat -> list (str * nat)) -> nat -> nat -> str -> list titem -> (nat -> list (str * nat)) -> Prop :=
+| RS : forall fuel R d i t hs tr R',
+    select_rel t (R i) hs -> rlist progs fuel R d t hs tr R' -> rspec progs fuel R d i t tr R'
+with rlist (progs : nat -> hprog) :
+  nat -> (nat -> list (str * nat)) -> nat -> str -> list nat -> list titem -> (nat -> list (str * nat)) -> Prop :=
+| RL_nil : forall fuel R d t, rlist progs fuel R d t [] [] R
+| RL_cons : forall fuel R d t h hs sub tr R1 R2,
+    ract progs fuel R d h t sub R1 -> rlist progs fuel R1 d t hs tr R2 ->
+    rlist progs fuel R d t (h :: hs) (TInv d h :: sub ++ tr) R2
+with ract (progs : nat -> hprog) :
+  nat -> (nat -> list (str * nat)) -> nat -> nat -> str -> list titem -> (nat -> list (str * nat)) -> Prop :=
+| RA_skip : forall fuel R d h t,
+    (forall fuel' steps, fuel = S fuel' -> progs h <> Some (t, steps)) -> ract progs fuel R d h t [] R
+| RA_run : forall fuel' R d h t steps sub R',
+    progs h = Some (t, steps) -> rsteps progs fuel' R d steps sub R' -> ract progs (S fuel') R d h t sub R'
+with rsteps (progs : nat -> hprog) :
+  nat -> (nat -> list (str * nat)) -> nat -> list hstep -> list titem -> (nat -> list (str * nat)) -> Prop :=
+| RT_nil : forall fuel R d, rsteps progs fuel R d [] [] R
+| RT_handle : forall fuel R d j f h b r tr R1 R2,
+    (b = true <-> valid_filter f) -> radd R j (f, h) R1 -> rsteps progs fuel R1 d r tr R2 ->
+    rsteps progs fuel R d (HsHandle j f h :: r) (TReg d b :: tr) R2
+| RT_serve : forall fuel R d j t r tr1 tr2 R1 R2,
+    rspec progs fuel R (S d) j t tr1 R1 -> rsteps progs fuel R1 d r tr2 R2 ->
+    rsteps progs fuel R d (HsServe j t :: r) (tr1 ++ tr2) R2.
+
+(* the handlers a call itself invoked: the TInv items at its depth *)
+Definition invs_at (d : nat) (tr : list titem) : list nat :=
+  flat_map (fun x => match x with TInv d' h => if Nat.eqb d' d then [h] else [] | TReg _ _ => [] end) tr.
+
+(* histories *)
+Inductive rhist (progs : nat -> hprog) (fuel : nat) :
+  (nat -> list (str * nat)) -> list mux_op -> list rmux_ev -> Prop :=
+| RH_nil : forall R, rhist progs fuel R [] []
+| RH_handle : forall R i f h b R1 ops evs,
+    (b = true <-> valid_filter f) -> radd R i (f, h) R1 -> rhist progs fuel R1 ops evs ->
+    rhist progs fuel R (OpHandle i f h :: ops) (RvHandle b :: evs)
+| RH_serve : forall R i t tr R1 ops evs,
+    rspec progs fuel R 0 i t tr R1 -> rhist progs fuel R1 ops evs ->
+    rhist progs fuel R (OpServe i t :: ops) (RvServe tr :: evs).
